@@ -43,6 +43,7 @@ type TypedRec struct {
 	Defaults  int          `json:"defaults"`
 	ReqExact  bool         `json:"req_exact"`
 	RespExact bool         `json:"resp_exact"`
+	OptSel    int          `json:"opt_sel,omitempty"`
 }
 
 // Deliverable lists, per corpus document, the operations whose schemas admit every core-domain value the
@@ -597,6 +598,7 @@ func (e *Engine) checkTyped(c *core.Ctx, id string) ([]core.Violation, map[strin
 	distinct := map[string]bool{}
 	syncPoints, syncYields := 0, 0
 	customCalls, overrideCalls := 0, 0
+	optionCalls := map[string]int{}
 	configured, fired := map[string]int{}, map[string]int{}
 	type failure struct {
 		i int
@@ -705,6 +707,14 @@ func (e *Engine) checkTyped(c *core.Ctx, id string) ([]core.Violation, map[strin
 				if scs[i].Override && cr.T != nil {
 					overrideCalls++
 				}
+				if cr.T != nil && cr.T.OptSel != 0 {
+					optionCalls["calls"]++
+					for b, n := range []string{"own_client", "server_url", "edit_request", "edit_response"} {
+						if cr.T.OptSel&(1<<b) != 0 {
+							optionCalls[n]++
+						}
+					}
+				}
 				if f := cr.Call.Fault; f != nil {
 					configured[f.Kind]++
 					if cr.FaultFired {
@@ -777,7 +787,7 @@ func (e *Engine) checkTyped(c *core.Ctx, id string) ([]core.Violation, map[strin
 		"per_package": stats, "operations_exercised": len(opsSeen), "operation_response_variants_reached": len(variantsSeen),
 		"delivery_demanded_for": demanded, "distinct_schedules": len(distinct), "sync_operation_points": syncPoints, "sync_operation_preemptions": syncYields,
 		"fault_kinds_configured": configured, "fault_kinds_fired": fired,
-		"configured_not_found_or_method_not_allowed_handler_ran": customCalls, "calls_with_overridden_server_url": overrideCalls,
+		"configured_not_found_or_method_not_allowed_handler_ran": customCalls, "calls_with_overridden_server_url": overrideCalls, "calls_with_per_call_request_options": optionCalls,
 		"rule": "values of the generated request, parameter and response types are made by reflection from the call's seed (core domain: short alphanumeric text, small numbers, whole-second UTC times, 1-3 element arrays; edge: delimiters, empty text and arrays, extremes of every numeric width, far instants); the handler's, the middleware's and the caller's copies are compared as trees with what was supplied",
 	}
 	return vs, info, nil
